@@ -198,7 +198,10 @@ def install(E):
     def unwrap_or(I, args, e, c):
         v, d = args
         if isinstance(v, VCons) and v.adt == 'CLAMPABLE':
-            I.events.append(('clamp', repr(d), e['loc']))
+            # try_from(x).unwrap_or(d): x when it fits, d otherwise.  Treating this as the identity on x is justified only if d is at
+            # least as large as every value a count can take (lists have at most isize::MAX members), i.e. d >= 2^63 - 1.
+            ok = isinstance(d, VInt) and d.lin.is_const() and d.lin.k >= 2**63 - 1
+            I.events.append(('clamp' if ok else 'clamp_bad', repr(d), e['loc']))
             return v.fields[0]
         if isinstance(v, VOption):
             if opt_tag(I, v, e['loc']) == 'none': return d
